@@ -160,7 +160,8 @@ func loadJob(spec *JobSpec, extraOverlay map[string][]byte) (*loaded, error) {
 
 // staticCovers collects the constant labels of verifapi.Cover calls reachable from fn inside
 // the analysed package (the vacuity guard expects every one of them to be reached).
-func staticCovers(fn *ssa.Function) []string {
+func staticCovers(roots []*ssa.Function) []string {
+	fn := roots[0]
 	seen := map[*ssa.Function]bool{}
 	labels := map[string]bool{}
 	var visit func(f *ssa.Function)
@@ -198,7 +199,9 @@ func staticCovers(fn *ssa.Function) []string {
 			}
 		}
 	}
-	visit(fn)
+	for _, r := range roots {
+		visit(r)
+	}
 	var out []string
 	for l := range labels {
 		out = append(out, l)
@@ -223,12 +226,15 @@ func runJob(spec *JobSpec, tier string, extraOverlay map[string][]byte, concrete
 	res := &JobResult{Spec: spec, Tier: tier, Ends: map[string]int{}, Covers: map[string]bool{}, Entered: map[string]int{},
 		Unmodelled: map[string]int{}, RedirUsed: map[string]int{}, Overlay: ld.overlay, HarnessPkg: ld.pkg.Pkg.Path()}
 	res.LoadTime = time.Since(t0)
-	res.WantCovers = staticCovers(fn)
+	roots := []*ssa.Function{fn}
 	for _, r := range spec.Redirects {
-		if ld.pkg.Func(r) == nil {
+		rf := ld.pkg.Func(r)
+		if rf == nil {
 			return nil, fmt.Errorf("redirect target %s missing in harness package", r)
 		}
+		roots = append(roots, rf)
 	}
+	res.WantCovers = staticCovers(roots)
 	// every redirect key must name a function that exists in the program (else the stub is dead
 	// and the claim would silently change)
 	if len(spec.Redirects) > 0 {
